@@ -180,7 +180,13 @@ pub fn run(monitor: &dyn Monitor, cfg: &RunCfg) -> i32 {
                             let _ = f.write_all(format!("{} {:<24}\n", s.name, idx).as_bytes());
                         }
                         rec.cur_idx = idx;
-                        monitor.run_case(s.name, idx, cfg.seed, &mut rec);
+                        // a panic here is a panic of the monitor's own code (calls into ppp are
+                        // guarded individually): keep going, the run ends inconclusive unless a
+                        // violation was found
+                        let r = std::panic::catch_unwind(std::panic::AssertUnwindSafe(|| monitor.run_case(s.name, idx, cfg.seed, &mut rec)));
+                        if r.is_err() {
+                            rec.class("MONITOR-INTERNAL-PANIC", || format!("{}#{}", s.name, idx));
+                        }
                         li += threads as u64;
                     }
                 }
@@ -343,6 +349,9 @@ pub fn finish(monitor: &dyn Monitor, cfg: &RunCfg, streams: &[StreamSpec], merge
     );
     if merged.violation_count > 0 {
         EXIT_VIOLATION
+    } else if let Some((n, first)) = merged.classes.get("MONITOR-INTERNAL-PANIC") {
+        println!("INCONCLUSIVE property={} reason=monitor-code-panicked-on-{}-cases(first:{})", monitor.id(), n, first);
+        EXIT_INCONCLUSIVE
     } else if !missing.is_empty() {
         println!("INCONCLUSIVE property={} reason=coverage-floor-not-met:{}", monitor.id(), missing.join(","));
         EXIT_INCONCLUSIVE
